@@ -212,6 +212,15 @@ impl Method for UpperReversalSignal {
 		};
 
 		self.index = self.index.saturating_add(1);
+
+		// positions are counted in `PeriodType`: before the counter saturates, renumber them
+		// so that the oldest value of the window gets position `0`
+		if self.index == PeriodType::MAX {
+			let shift = self.index - self.window.len();
+			self.index -= shift;
+			self.max_index -= shift;
+		}
+
 		s
 	}
 }
@@ -346,6 +355,15 @@ impl Method for LowerReversalSignal {
 		};
 
 		self.index = self.index.saturating_add(1);
+
+		// positions are counted in `PeriodType`: before the counter saturates, renumber them
+		// so that the oldest value of the window gets position `0`
+		if self.index == PeriodType::MAX {
+			let shift = self.index - self.window.len();
+			self.index -= shift;
+			self.min_index -= shift;
+		}
+
 		s
 	}
 }
